@@ -765,7 +765,7 @@ Lemma fir_plan_ok Fs lb ub order n : 0 < Fs -> 0 <= lb -> ub <= Fs / 2 -> (order
   Plan (order + 1) ((if Qltb (ub / (Fs / 2)) 1 then [LP (ub / (Fs / 2))] else []) ++
                     (if Qltb 0 (lb / (Fs / 2)) then [HP (lb / (Fs / 2))] else [])).
 Proof.
-  intros HF Hl Hu Ho. unfold fir_plan, ub_frac, lb_frac.
+  intros HF Hl Hu Ho. unfold fir_plan, fir_plan_fr, ub_frac, lb_frac.
   pose proof (half_pos Fs HF) as Hh. set (h := Fs / 2) in *.
   assert (A : Qltb (lb / h) 0 = false).
   { apply Qltb_ge. apply Qle_shift_div_l; [exact Hh|]. lra. }
